@@ -346,17 +346,31 @@ func jobC13(c *rt.Ctx) {
 					continue
 				}
 				for ki, kd := range kinds {
-					for two := 0; two < 2; two++ {
+					// two: 0 = one malformed entry; 1 = the next entry malformed in another way; 2 = the next entry
+					// malformed in the SAME way (byte-identical malformed neighbours, also across a chunk
+					// boundary); 3 = every entry malformed in the same way
+					for two := 0; two < 4; two++ {
+						if two == 3 && pos != 0 {
+							continue
+						}
 						if !c.Take() {
 							continue
 						}
 						entries := append([]triple{}, fillers(vs, n)...)
 						kd.mut(&entries[pos])
-						if two == 1 && n == 1 {
+						if two >= 1 && n == 1 {
 							continue
 						}
 						if two == 1 {
 							kinds[(ki+5)%len(kinds)].mut(&entries[(pos+1)%n])
+						}
+						if two == 2 {
+							entries[(pos+1)%n] = entries[pos]
+						}
+						if two == 3 {
+							for i := range entries {
+								entries[i] = entries[pos]
+							}
 						}
 						c.Class("batch-entries")
 						c.Distinct(fmt.Sprintf("be %v %d %d %d %d", vs, n, pos, ki, two), true)
